@@ -43,6 +43,9 @@ Definition is_N (f : fail) := clause_eqb (f_clause f) CNest.
 Definition is_S (f : fail) := clause_eqb (f_clause f) CSibling.
 Definition fsp (f : fail) : sourcepos := nsp (f_node f).
 
+Definition sp_eqb (a b : sourcepos) : bool :=
+  (sl a =? sl b) && (sc a =? sc b) && (el a =? el b) && (ec a =? ec b).
+
 (* ---- C11-a / C12-a  end_col_zero: a block that is still open when a blank line (or the end of the
    input) finalizes it gets end = (that line, last_line_length = 0): column 0 of a blank line ---- *)
 Definition cls_end_col_zero (L : list srcline) (f : fail) : bool :=
@@ -54,20 +57,66 @@ Definition cls_end_col_zero (L : list srcline) (f : fail) : bool :=
 
 (* ---- C11-b / C12-b  refdef_before_paragraph (F23): the inlines of a paragraph (or setext heading) whose
    source begins with a link reference definition are positioned as if the definitions were still there.
-   Predicate: the nearest block is a Paragraph or Heading whose first line has a left bracket and then a
-   right bracket followed by a colon. ---- *)
-Definition begins_with_refdef (L : list srcline) (p : node) : bool :=
-  match nval p with
-  | Paragraph | Heading _ _ =>
-    match line_at L (sl (nsp p)) with
-    | Some l => contains (ln_body l) [x5b] && contains (ln_body l) [x5d; x3a]
-    | None => false
-    end
-  | _ => false
+   Predicate: the node is an inline whose nearest block is a Paragraph or Heading whose source, read from
+   the block's own start position, is a left bracket, a label (no unescaped bracket in it; it may run over
+   line ends) and a right bracket followed by a colon.
+   Second shape, same root: when such a paragraph is the first block of a task list item, process_tasklist
+   copies the (misplaced) column of the text after the task marker into the START COLUMN OF THE PARAGRAPH;
+   then the paragraph itself is in the class, and the definition is looked for after the list marker at the
+   start of the item. ---- *)
+Fixpoint label_then_colon (s : bytes) (esc : bool) : bool :=
+  match s with
+  | [] => false
+  | b :: r =>
+    if esc then label_then_colon r false
+    else if beqb b x5c then label_then_colon r true
+    else if beqb b x5b then false
+    else if beqb b x5d then match r with c :: _ => beqb c x3a | [] => false end
+    else label_then_colon r false
+  end.
+Definition starts_with_refdef (s : bytes) : bool :=
+  match s with b :: r => beqb b x5b && label_then_colon r false | [] => false end.
+(* the source from (ln, c) to the end of line `last` *)
+Definition text_from (L : list srcline) (ln c last : N) : bytes :=
+  match line_at L ln with
+  | Some l => skipn (N.to_nat (c - 1)) (ln_full l) ++ lines_between L (N.to_nat ln) (N.to_nat (last - ln))
+  | None => []
+  end.
+Fixpoint drop_list_marker (s : bytes) : bytes :=
+  match s with
+  | b :: r => if is_ws b || is_digit b || beqb b x2d || beqb b x2b || beqb b x2a || beqb b x2e || beqb b x29
+              then drop_list_marker r else s
+  | [] => []
+  end.
+Definition is_task_item (n : node) : bool := match nval n with TaskItem _ => true | _ => false end.
+Definition is_para_or_heading (n : node) : bool := match nval n with Paragraph | Heading _ _ => true | _ => false end.
+(* p: the block; anc: its ancestors, nearest first *)
+Definition begins_with_refdef (L : list srcline) (p : node) (anc : list node) : bool :=
+  is_para_or_heading p &&
+  (starts_with_refdef (text_from L (sl (nsp p)) (sc (nsp p)) (el (nsp p))) ||
+   match anc with
+   | it :: _ => is_task_item it &&
+                match nch it with
+                | q :: _ => sp_eqb (nsp q) (nsp p) &&
+                            starts_with_refdef (drop_list_marker (text_from L (sl (nsp it)) (sc (nsp it)) (el (nsp p))))
+                | [] => false
+                end
+   | [] => false
+   end).
+(* the nearest block among the node itself and its ancestors, with that block's ancestors *)
+Fixpoint nearest_block_in (l : list node) : option (node * list node) :=
+  match l with
+  | [] => None
+  | a :: r => if is_inline a then nearest_block_in r else Some (a, r)
   end.
 Definition cls_refdef (L : list srcline) (f : fail) : bool :=
-  is_inline (f_node f) &&
-  match nearest_block f with Some p => begins_with_refdef L p | None => false end.
+  match nearest_block_in (f_node f :: f_anc f) with
+  | Some (p, anc) =>
+    if is_inline (f_node f) then begins_with_refdef L p anc
+    else (* the paragraph of a task item itself *)
+      match anc with it :: _ => is_task_item it && begins_with_refdef L p anc | [] => false end
+  | None => false
+  end.
 
 (* ---- C11-c / C12-c  bom_line1: with a byte-order mark, start columns on line 1 count its three bytes
    and some end columns do not; a table that starts on line 1 hands its start column to all its rows ---- *)
@@ -142,7 +191,19 @@ Fixpoint prefix_ok (in_quote header : bool) (s : bytes) : bool :=
      (header && marker_char b && match r with c :: _ => is_ws c | [] => false end))
     && prefix_ok in_quote header r
   end.
-Definition row_misaligned (L : list srcline) (in_quote : bool) (r t : node) : bool :=
+(* after_para: the header row came after other lines of the paragraph (the table follows, among its
+   siblings, a paragraph that ends on the line before it).  Such a line may be a lazy continuation line,
+   which keeps its leading blanks in the paragraph text: they are then part of the row's text, the first
+   cell is reported from the table's start column with their width added.  So on such a line a blank just
+   before the table's start column also means the row's text does not begin at that column. *)
+Definition is_para_n (n : node) : bool := match nval n with Paragraph => true | _ => false end.
+Fixpoint para_then_table (t : node) (l : list node) : bool :=
+  match l with
+  | a :: ((b :: _) as r) =>
+    (is_para_n a && is_table b && sp_eqb (nsp b) (nsp t) && (el (nsp a) + 1 =? sl (nsp t))) || para_then_table t r
+  | _ => false
+  end.
+Definition row_misaligned (L : list srcline) (in_quote after_para : bool) (r t : node) : bool :=
   let c := sc (nsp t) in let ln := sl (nsp r) in
   match line_at L ln with
   | None => true
@@ -150,16 +211,20 @@ Definition row_misaligned (L : list srcline) (in_quote : bool) (r t : node) : bo
     match nth_error (ln_body l) (N.to_nat (c - 1)) with
     | None => true
     | Some b => is_ws b || (in_quote && beqb b x3e) ||
-                negb (prefix_ok in_quote (is_header_row r) (firstn (N.to_nat (c - 1)) (ln_body l)))
+                negb (prefix_ok in_quote (is_header_row r) (firstn (N.to_nat (c - 1)) (ln_body l))) ||
+                (is_header_row r && after_para && (2 <=? c) &&
+                 match nth_error (ln_body l) (N.to_nat (c - 2)) with Some b' => is_ws b' | None => false end)
     end
   end.
 Definition cls_row_indent (L : list srcline) (f : fail) : bool :=
   match find is_row (f_node f :: f_anc f), find is_table (f_anc f) with
-  | Some r, Some t => row_misaligned L (existsb is_quote_n (f_anc f)) r t
+  | Some r, Some t =>
+    row_misaligned L (existsb is_quote_n (f_anc f)) (existsb (fun a => para_then_table t (nch a)) (f_anc f)) r t
   | _, _ =>
     (* the Table node itself: judged by its header row *)
     match f_node f with
-    | Node (Table _) _ (r :: _) => row_misaligned L (existsb is_quote_n (f_anc f)) r (f_node f)
+    | Node (Table _) _ (r :: _) =>
+      row_misaligned L (existsb is_quote_n (f_anc f)) (existsb (fun a => para_then_table (f_node f) (nch a)) (f_anc f)) r (f_node f)
     | _ => false
     end
   end.
@@ -217,8 +282,6 @@ Definition cls_nul (L : list srcline) (f : fail) : bool :=
 (* ---- table_escaped_pipe: the content of a cell is unescaped (backslash pipe -> pipe) BEFORE its inlines are
    parsed, so every inline after an escaped pipe is one column to the left per escaped pipe ---- *)
 Definition is_cell_n (n : node) : bool := match nval n with TableCell => true | _ => false end.
-Definition sp_eqb (a b : sourcepos) : bool :=
-  (sl a =? sl b) && (sc a =? sc b) && (el a =? el b) && (ec a =? ec b).
 Fixpoint followed_by_table (p : node) (l : list node) : bool :=
   match l with
   | a :: ((b :: _) as r) => (sp_eqb (nsp a) (nsp p) && is_table b) || followed_by_table p r
@@ -332,6 +395,21 @@ Definition classify (L : list srcline) (f : fail) : option string :=
     match f_clause f, f_anc f, f_prev f with
     | CNest, p :: anc, _ => classify1 L (as_bounds p anc)
     | CSibling, _, Some a => classify1 L (as_bounds a (f_anc f))
+    | CSlice, _, _ =>
+      (* a delimited span is judged against the positions of its first and last child: excused when one of
+         those is in a class *)
+      match nval (f_node f) with
+      | Emph | Strong | Strikethrough =>
+        match nch (f_node f), rev (nch (f_node f)) with
+        | a :: _, z :: _ =>
+          match classify1 L (as_bounds a (f_node f :: f_anc f)) with
+          | Some c => Some c
+          | None => classify1 L (as_bounds z (f_node f :: f_anc f))
+          end
+        | _, _ => None
+        end
+      | _ => None
+      end
     | _, _, _ => None
     end
   end.
